@@ -23,7 +23,9 @@ SPACES = {
               dict(nv=3, maxl=3, minl=3, classes=("D", "U"))],
     "thorough": [dict(nv=3, maxl=3, classes=("D", "U", "O", "Ds")),
                  dict(nv=4, maxl=3, minl=3, classes=("D", "U")),
-                 dict(nv=3, maxl=2, classes=("D", "U", "O"), mutations=True)],
+                 dict(nv=3, maxl=2, classes=("D", "U", "O"), mutations=True),
+                 dict(nv=3, maxl=4, minl=4, classes=("D", "U")),
+                 dict(nv=2, maxl=6, minl=4, classes=("D", "U"))],
 }
 
 
